@@ -119,8 +119,8 @@ func (g *gen) render() string {
 // names
 
 var (
-	lowerNames = []string{"a", "b", "x", "foo", "bar", "value", "i", "it", "$v", "_u", "x1", "getName", "setName", "isOk", "nullable", "переменная", "ünï", "变量", "𝒳y", "ſ", "émile"}
-	upperNames = []string{"A", "B", "Foo", "Bar", "T", "Outer", "String", "Object", "List", "E", "Ünï", "Класс", "漢字", "Ω", "Élan", "$T", "_K", "İ"}
+	lowerNames  = []string{"a", "b", "x", "foo", "bar", "value", "i", "it", "$v", "_u", "x1", "getName", "setName", "isOk", "nullable", "переменная", "ünï", "变量", "𝒳y", "ſ", "émile"}
+	upperNames  = []string{"A", "B", "Foo", "Bar", "T", "Outer", "String", "Object", "List", "E", "Ünï", "Класс", "漢字", "Ω", "Élan", "$T", "_K", "İ"}
 	ctxKeywords = []string{"module", "open", "requires", "exports", "opens", "to", "uses", "provides", "with", "transitive", "yield", "sealed", "permits", "record", "var"}
 	pkgParts    = []string{"a", "b", "com", "example", "util", "x1", "пакет", "to", "open", "with"}
 )
@@ -184,10 +184,10 @@ func (g *gen) qualifiedName(max int) {
 // literals
 
 var (
-	intLits   = []string{"0", "1", "42", "1_000", "7L", "0x1F", "0XcafeL", "0x1_F", "017", "0_7", "00", "0b101", "0B1_0l", "2147483647", "9__9"}
-	floatLits = []string{"1.0", "1.", ".5", "1e3", "1.5e-3f", "2D", "3f", "1_0.0_1", "0x1.8p1", "0x.8P-2f", "0x1p3", "1E+2d"}
-	charLits  = []string{"'a'", "'\\n'", "'\\''", "'\\\\'", "'\\u0041'", "'\\uuu0041'", "'\\177'", "'\\0'", "'é'", "'漢'", "'\"'", "'#'", "' '", "'\\t'"}
-	strLits   = []string{`""`, `"s"`, `"a b"`, `"a\tb\"c\\"`, `"\101é"`, `"é漢字😀"`, `"// not a comment"`, `"/* nor this */"`, `"#"`, `"TODO"`, `"'"`, `"null"`, `"x.y(z)"`, `"{}"`, `"\0"`}
+	intLits    = []string{"0", "1", "42", "1_000", "7L", "0x1F", "0XcafeL", "0x1_F", "017", "0_7", "00", "0b101", "0B1_0l", "2147483647", "9__9"}
+	floatLits  = []string{"1.0", "1.", ".5", "1e3", "1.5e-3f", "2D", "3f", "1_0.0_1", "0x1.8p1", "0x.8P-2f", "0x1p3", "1E+2d"}
+	charLits   = []string{"'a'", "'\\n'", "'\\''", "'\\\\'", "'\\u0041'", "'\\uuu0041'", "'\\177'", "'\\0'", "'é'", "'漢'", "'\"'", "'#'", "' '", "'\\t'"}
+	strLits    = []string{`""`, `"s"`, `"a b"`, `"a\tb\"c\\"`, `"\101é"`, `"é漢字😀"`, `"// not a comment"`, `"/* nor this */"`, `"#"`, `"TODO"`, `"'"`, `"null"`, `"x.y(z)"`, `"{}"`, `"\0"`}
 	textBlocks = []string{
 		"\"\"\"\n   hello\n   \"\"\"", "\"\"\"\n\"\"\"", "\"\"\" \t\n  a \"quoted\" \\\" b\n  \"\"\"", "\"\"\"\n  é漢字 \\n \\\n  x\"\"\"",
 		"\"\"\"\n  // TODO in text\n  /* x */\n  \"\"\"", "\"\"\"\n  line #\n  # \n  \"\"\"", "\"\"\"\n  a ' b `c`\n  \"\"\"",
